@@ -40,7 +40,11 @@ theorem send_old' (wc : WC) (r : Res) : (wc.send r).old = wc.old := by
   cases r <;> simp only [WC.send]
   split <;> rfl
 
-theorem send_procMode (wc : WC) (r : Res) : (wc.send r).procMode = wc.procMode := by
+theorem send_proc (wc : WC) (r : Res) : (wc.send r).proc = wc.proc := by
+  cases r <;> simp only [WC.send]
+  split <;> rfl
+
+theorem send_pst (wc : WC) (r : Res) : (wc.send r).pst = wc.pst := by
   cases r <;> simp only [WC.send]
   split <;> rfl
 
@@ -117,7 +121,12 @@ theorem markAsValid_status (wc : WC) (k : Nat) : (wc.markAsValid k).status = wc.
   · rfl
   · split <;> rfl
 
-theorem markAsValid_procMode (wc : WC) (k : Nat) : (wc.markAsValid k).procMode = wc.procMode := by
+theorem markAsValid_proc (wc : WC) (k : Nat) : (wc.markAsValid k).proc = wc.proc := by
+  unfold WC.markAsValid; split
+  · rfl
+  · split <;> rfl
+
+theorem markAsValid_pst (wc : WC) (k : Nat) : (wc.markAsValid k).pst = wc.pst := by
   unfold WC.markAsValid; split
   · rfl
   · split <;> rfl
@@ -205,7 +214,7 @@ structure StepOK (m0 : View) (st0 : Nat) (wc w : WC) (c : List KV) : Prop where
   old : ∀ k, oldLookup w k = if mentions c k then none else oldLookup wc k
   status : w.status = wc.status
   idle : wc.old = none → w.old = none
-  mode : w.procMode = wc.procMode
+  mode : w.proc = wc.proc
 
 theorem StepOK.refl {m0 : View} {st0 : Nat} {wc : WC} (h : Inv m0 st0 wc) : StepOK m0 st0 wc wc [] :=
   ⟨h, fun _ => rfl, fun _ => by simp [mentions], rfl, id, rfl⟩
@@ -276,8 +285,8 @@ theorem handleAddMod_ok {m0 : View} {st0 : Nat} {wc : WC} (h : Inv m0 st0 wc) (h
     · intro hi
       show (wc.markAsValid kv.key).old = none
       exact markAsValid_idle wc kv.key hi
-    · show (wc.markAsValid kv.key).procMode = wc.procMode
-      exact markAsValid_procMode wc kv.key
+    · show (wc.markAsValid kv.key).proc = wc.proc
+      exact markAsValid_proc wc kv.key
   unfold WC.handleAddMod
   simp only
   cases hl : lookup (wc.markAsValid kv.key).res kv.key with
@@ -287,7 +296,7 @@ theorem handleAddMod_ok {m0 : View} {st0 : Nat} {wc : WC} (h : Inv m0 st0 wc) (h
     by_cases hr : r = kv.rev
     · simp only [hr, if_true]
       refine ⟨I1, ?_, old_single kv o1, markAsValid_status wc kv.key, markAsValid_idle wc kv.key,
-        markAsValid_procMode wc kv.key⟩
+        markAsValid_proc wc kv.key⟩
       intro k
       simp only [List.foldl_cons, List.foldl_nil, applyKV, hdel]
       by_cases e : kv.key = k
@@ -312,7 +321,7 @@ theorem handleDeleted_ok {m0 : View} {st0 : Nat} {wc : WC} (h : Inv m0 st0 wc) (
   | none =>
     simp only
     refine ⟨I1, ?_, old_single kv o1, markAsValid_status wc kv.key, markAsValid_idle wc kv.key,
-      markAsValid_procMode wc kv.key⟩
+      markAsValid_proc wc kv.key⟩
     intro k
     simp only [List.foldl_cons, List.foldl_nil, applyKV, hdel]
     by_cases e : kv.key = k
@@ -341,7 +350,7 @@ theorem handleDeleted_ok {m0 : View} {st0 : Nat} {wc : WC} (h : Inv m0 st0 wc) (
       · simp only [e, if_false]; exact I1.disj k hk
     have I2 := I1.emit hs1 _ _ hd hv
     refine ⟨I2, ?_, old_single kv o1, markAsValid_status wc kv.key, markAsValid_idle wc kv.key,
-      markAsValid_procMode wc kv.key⟩
+      markAsValid_proc wc kv.key⟩
     intro k
     show view { wc.markAsValid kv.key with res := erase (wc.markAsValid kv.key).res kv.key } k = _
     rw [hv k]
@@ -366,38 +375,61 @@ theorem foldl_handleConverted_ok {m0 : View} {st0 : Nat} (c : List KV) {wc : WC}
     have s2 := ih s1.inv (by rw [s1.status]; exact hs)
     exact s1.trans s2
 
-/-- `handleWatchListEvent`: the raw KV is converted and every converted KV is applied. -/
+theorem handleConverted_pst (wc : WC) (kv : KV) : (wc.handleConverted kv).pst = wc.pst := by
+  unfold WC.handleConverted WC.handleDeleted WC.handleAddMod
+  split
+  · simp only
+    split
+    · show (WC.send _ _).pst = _; rw [send_pst, markAsValid_pst]
+    · exact markAsValid_pst _ _
+  · simp only
+    split
+    · split
+      · exact markAsValid_pst _ _
+      · show (WC.send _ _).pst = _; rw [send_pst, markAsValid_pst]
+    · show (WC.send _ _).pst = _; rw [send_pst, markAsValid_pst]
+
+theorem foldl_handleConverted_pst (c : List KV) (wc : WC) : (c.foldl WC.handleConverted wc).pst = wc.pst := by
+  induction c generalizing wc with
+  | nil => rfl
+  | cons x xs ih => simp only [List.foldl_cons]; rw [ih, handleConverted_pst]
+
+/-- `handleWatchListEvent`: the raw KV is converted by the processor in its current state and every converted KV is
+applied; the processor's state advances. -/
 theorem handleWatchListEvent_ok {m0 : View} {st0 : Nat} {wc : WC} (h : Inv m0 st0 wc) (hs : wc.status ≠ stWait)
-    (kv : KV) : StepOK m0 st0 wc (wc.handleWatchListEvent kv) (convert wc.procMode kv) := by
-  have h0 : Inv m0 st0 { wc with rev := kv.rev, errCount := 0 } := h.of_eq rfl rfl rfl rfl
-  have base : StepOK m0 st0 wc { wc with rev := kv.rev, errCount := 0 } [] :=
+    (kv : KV) :
+    StepOK m0 st0 wc (wc.handleWatchListEvent kv) (procRun wc.proc wc.pst kv).2.1 ∧
+      (wc.handleWatchListEvent kv).pst = (procRun wc.proc wc.pst kv).1 := by
+  have h0 : Inv m0 st0 { wc with rev := kv.rev, errCount := 0, pst := (procRun wc.proc wc.pst kv).1 } :=
+    h.of_eq rfl rfl rfl rfl
+  have base : StepOK m0 st0 wc { wc with rev := kv.rev, errCount := 0, pst := (procRun wc.proc wc.pst kv).1 } [] :=
     ⟨h0, fun _ => rfl, fun _ => by simp [mentions]; rfl, rfl, id, rfl⟩
-  unfold WC.handleWatchListEvent convert
+  have s := base.trans (foldl_handleConverted_ok (procRun wc.proc wc.pst kv).2.1 h0 hs)
+  simp only [List.nil_append] at s
+  have hp := foldl_handleConverted_pst (procRun wc.proc wc.pst kv).2.1
+    { wc with rev := kv.rev, errCount := 0, pst := (procRun wc.proc wc.pst kv).1 }
+  unfold WC.handleWatchListEvent
   simp only
   split
-  · rename_i hm
-    exact base.trans (handleConverted_ok h0 hs kv)
-  · rename_i hm
-    have s := base.trans (foldl_handleConverted_ok (conv1 kv).1 h0 hs)
-    simp only [List.nil_append] at s
-    split
-    · refine ⟨s.inv.send_convErr, ?_, ?_, s.status, ?_, ?_⟩
-      · intro k; exact s.view k
-      · intro k; exact s.old k
-      · intro hi; show (WC.send _ Res.convErr).old = none; rw [send_old']; exact s.idle hi
-      · show (WC.send _ Res.convErr).procMode = _; rw [send_procMode]; exact s.mode
-    · exact s
+  · refine ⟨⟨s.inv.send_convErr, ?_, ?_, s.status, ?_, ?_⟩, ?_⟩
+    · intro k; exact s.view k
+    · intro k; exact s.old k
+    · intro hi; show (WC.send _ Res.convErr).old = none; rw [send_old']; exact s.idle hi
+    · show (WC.send _ Res.convErr).proc = _; rw [send_proc]; exact s.mode
+    · show (WC.send _ Res.convErr).pst = _; rw [send_pst]; exact hp
+  · exact ⟨s, hp⟩
 
 theorem foldl_handleWatchListEvent_ok {m0 : View} {st0 : Nat} (kvs : List KV) {wc : WC} (h : Inv m0 st0 wc)
     (hs : wc.status ≠ stWait) :
-    StepOK m0 st0 wc (kvs.foldl WC.handleWatchListEvent wc) (kvs.flatMap (convert wc.procMode)) := by
+    StepOK m0 st0 wc (kvs.foldl WC.handleWatchListEvent wc) (convSeq wc.proc wc.pst kvs) ∧
+      (kvs.foldl WC.handleWatchListEvent wc).pst = convState wc.proc wc.pst kvs := by
   induction kvs generalizing wc with
-  | nil => exact StepOK.refl h
+  | nil => exact ⟨StepOK.refl h, rfl⟩
   | cons kv kvs ih =>
-    simp only [List.foldl_cons, List.flatMap_cons]
-    have s1 := handleWatchListEvent_ok h hs kv
-    have s2 := ih s1.inv (by rw [s1.status]; exact hs)
-    rw [s1.mode] at s2
-    exact s1.trans s2
+    simp only [List.foldl_cons, convSeq, convState]
+    obtain ⟨s1, p1⟩ := handleWatchListEvent_ok h hs kv
+    obtain ⟨s2, p2⟩ := ih s1.inv (by rw [s1.status]; exact hs)
+    rw [s1.mode, p1] at s2 p2
+    exact ⟨s1.trans s2, p2⟩
 
 end CalicoVerif.C26
